@@ -22,7 +22,7 @@ META = {
 
 FIXTURE = Path(__file__).resolve().parent.parent.parent / "fixtures" / "c13"
 EXPECTED_FIXTURE = {
-    "writers": {"pdict['seen'] = True", "v.pop('x', None)", "_CACHE[id(self)] = pdict", "del d['a']", "self._def.update(z=1)"},
+    "writers": {"pdict['seen'] = True", "v.pop('x', None)", "_CACHE[id(self)] = pdict", "del d['a']", "self._def.update(z=1)", "Msg.counter = 1", "type(self).last = self"},
     "class": {"self.shared_map[1] = 2"},
     "defaults": {"index=[]"},
     "memo": {"@lru_cache(maxsize=None)"},
